@@ -13,13 +13,14 @@ from ..core import Violation
 
 ID = "C18"
 LEVEL = "exploration"
-RULE = ("Hypothesis draws a nested mapping (depth<=4, fan-out 1-5, keys from an alphabet incl. '' and non-ASCII that is "
-        "disjoint from the separator alphabet, leaf payloads int/str/None/list/schema/.../bool, optional on any subset of "
+RULE = ("Hypothesis draws a nested mapping (depth<=4, fan-out 1-5, keys from an alphabet incl. '', non-ASCII, and every punctuation character that is "
+        "not part of the separator in use ('.', '/', ':', backslash - also as the last character of an inner name -, regex "
+        "metacharacters), leaf payloads int/str/None/list/schema/.../bool, optional on any subset of "
         "leaves - an optional leaf may share its name with a sibling branch -, optional top-level ...: ...), a 1-3 char "
         "separator and a permutation of the flat keys; distinct = canonical JSON of the case; non-trivial = depth>=2 and "
         "some sibling group is split (non-adjacent) by the permutation")
 ASSUMPTIONS = [
-    "separator characters never occur inside keys (otherwise the flat form is ambiguous)",
+    "no character of the separator in use occurs inside a key (otherwise the flat form is ambiguous); characters of other separators may",
     "leaf payloads are never dicts and inner dicts are never empty (neither has a flat form)",
 ]
 BUDGET = {"quick": (1500, 2), "thorough": (20000, 16)}
